@@ -961,7 +961,10 @@ ZM_BASE = [
 ZM_OPTIONS = [
     ("apex-zonemd", [zrr("@", 3600, RR_ZONEMD(1, 1, 1, "00" * 48))]),
     ("apex-rrsig-zonemd", [zrr("@", 3600, RR_RRSIG("ZONEMD", 63))]),
-    ("apex-rrsig-soa+dnskey", [zrr("@", 3600, RR_RRSIG("SOA", 6, "EXAMPLE.org.")),
+    # the RRSIG rdatasets of one owner are listed in descending order of the covered type: the digest
+    # must order them by covered type (RFC 4034 s6.3 order of the RRSIG RRset), not by load order
+    ("apex-rrsig-soa+dnskey", [zrr("@", 3600, RR_RRSIG("DNSKEY", 48, "example.ORG.")),
+                               zrr("@", 3600, RR_RRSIG("SOA", 6, "EXAMPLE.org.")),
                                zrr("@", 3600, RR_DNSKEY(257, "QUJDWg==", "4142435a"))]),
     ("www-a", [zrr("Www", 300, RR_A("10.0.0.2")), zrr("WWW", 300, RR_A("10.0.0.1"))]),
     ("mail-mx", [zrr("mail", 600, RR_MX(10, "B.Example.ORG.")), zrr("mail", 600, RR_MX(10, "a")),
